@@ -1184,7 +1184,7 @@ func Run(cfg vh.Config) (*vh.Result, error) {
 			distinct[string(j)] = true
 		}
 		for _, a := range out.applied {
-			res.InputDistribution["fault:"+a[strings.Index(a, ":")+1:]]++
+			res.InputDistribution["fault:"+strings.SplitN(a[strings.Index(a, ":")+1:], "=", 2)[0]]++
 		}
 		if len(out.applied) == 0 {
 			res.InputDistribution["fault:none"]++
